@@ -31,7 +31,7 @@ COQ_HEADER = 'From KV Require Import Eqb AL Str.\nFrom KV.Model Require Import M
 CASE_TYPE = 'MTar.case'
 CHECK_FN = 'MTar.check_case'
 SHARD_SIZE = 10
-CASE_TIMEOUT = 120
+CASE_TIMEOUT = 300
 SEARCH_CAP = 200
 RULE = ('dataset = 1..4 feature stores (kind in keypoints/descriptors/global_features/matches, type name, dtype, dsize) in '
         'one kapture directory; per store a write history with overwrites, 0-row arrays, nested / spaced / unicode / long '
@@ -321,7 +321,7 @@ def _gen_append(rng, mode):
 
 
 def gen_cases(rng, tier):
-    n_ds, n_app, n_kill = (110, 45, 14) if tier == 'quick' else (1100, 450, 70)
+    n_ds, n_app, n_kill = (100, 40, 10) if tier == 'quick' else (1000, 400, 60)
     cases = []
     for i in range(max(n_ds, n_app)):
         if i < n_ds:
